@@ -70,6 +70,72 @@ CLAIMED = {
              "checked by exhaustive (all URI targets of length <=4 over a 15-letter alphabet) and random correspondence streams, not verified.",
         design="§4 C16",
     ),
+    "C02": dict(
+        text="Lean 4 theorems over the model of iter_settings / settings_map / the four views: for every well-formed settings list and any trailing "
+             "bytes, decoding the big-endian TLV serialization returns exactly that list (parse_serialize; 00 00 or end of data); truncation at any "
+             "byte drops only the incomplete record; an over-long 0x80 User-Agent continues to the next NUL or end of data; decoding is total for "
+             "arbitrary bytes and re-serializes to a prefix of the block (parse_sound). The name-, const- and enum-keyed mappings are re-keyings of "
+             "each other with Python dict semantics for duplicates (const-keyed under a stated no-mixed-36 hypothesis), raw and pretty agree off the "
+             "generated SETTING_TO_PRETTYFUNC key set, SHORT/INT are unsigned 16/32-bit, the name key is injective, unknown indices get a synthetic "
+             "name and index 36 is named by its type.",
+        note="Enum tables, struct layout and the pretty-function key set are regenerated by introspection (tools/gen/beacon.py) and pinned by decide "
+             "obligations. Pretty-function content is an abstract, possibly raising parameter (C03's subject); dissect.cstruct/BytesIO/dict semantics "
+             "are modelled, not verified; view caching is C14's subject. Tied to the code by ~48k/~300k in-process comparisons plus an independent "
+             "Python TLV decoder as oracle.",
+        design="§4 C02",
+    ),
+    "C03": dict(
+        text="Lean 4 round-trip theorems for every structured-setting decoder: for all well-formed transform/recover programs over the full opcode "
+             "set with arbitrary arguments and any number of BUILD blocks (transform_roundtrip, recover_roundtrip by induction), all execute lists "
+             "(valid UTF-8 names, offsets, NUL padding), process-inject transforms, section tables, pivot frames, NUL-terminated strings, the DNS idle "
+             "quad and all BeaconGate enabled sets (gate_sound_complete, stated over sets, not by enumerating 2^23), the model of the parser returns "
+             "exactly the encoded steps in order and nothing else; domain/URI pairs, protocol, port, kill date, watermark, trial flag derive "
+             "consistently. Opcode tables and SETTING_TO_PRETTYFUNC keys are regenerated from the imported package and proved equal to hand-written "
+             "Cobalt Strike numbering on every run.",
+        note="BytesIO, int.from_bytes, UTF-8/latin-1 decoding, dissect.cstruct enum/flag naming and ipaddress are modelled and validated by "
+             "correspondence (0.25M quick / 2.4M thorough cases, directly and through BeaconConfig(block).settings), not verified; SHA-256 is a "
+             "parameter. BeaconProtocol names for combined/undefined flag values and wrongly-typed settings are outside the theorems. Known finding "
+             "C03-killdate-legacy-fallback-dead (full statement kept as killdate_legacy_full with a proof of its negation).",
+        design="§4 C03",
+    ),
+    "C04": dict(
+        text="Lean 4 proofs over an executable model of HttpDataTransform: each of the seven encoders is inverted by its decoder on all byte strings "
+             "(incl. CPython's lenient base64 decoder with the appended '==', proved by induction on 3-byte groups), any chain is invertible "
+             "(chain_inverse), and for every valid program (static decorations, any number of build blocks whose placements are not overwritten, "
+             "client and server/int-argument form), all payloads, all mask values and any initial request, recover(transform(d)) = d "
+             "(recover_transform_partial, recover_transform_server); library-encoded messages decode with an independent reference decoder and "
+             "reference-encoded (unpadded base64url) messages are recovered by the library (ref_decodes_model, model_decodes_ref).",
+        note="Partial in one point: uri-append with a non-empty initial URI is the recorded known finding C04-uri-append-initial-uri; the full "
+             "statement is kept as recover_transform_full and proved false at a concrete witness. CPython base64/partition/dict, struct.pack and the "
+             "C20 xor/netbios models are modelled and validated (exhaustive short-input base64 stream), not verified; getrandbits is scripted; "
+             "step arguments are assumed well typed.",
+        design="§4 C04",
+    ),
+    "C14": dict(
+        text="Lean 4 proof over an explicit heap model of the Python list objects: for all operation sequences (view access, settings_map, C2Http "
+             "with every key variant, client dry-run, profile generation, transform/recover, mutation attempts) the deep snapshot of the four "
+             "settings views is unchanged (config_invariant, by induction), every result equals the result on a fresh configuration "
+             "(history_independent), mappings reject item assignment, and no object handed out shares a list with the configuration "
+             "(views_alias_free). The pre-9ab9399 aliasing variant is proved to violate each of these (non-vacuity).",
+        note="The model abstracts values to interned ids and keeps only the object graph; its faithfulness is checked by replaying random histories "
+             "(1-25 ops) on the 7 sample beacons and synthetic TLV configurations against the compiled model, with an independent deepcopy-snapshot / "
+             "fresh-configuration / object-identity oracle on every case. settings_tuple is assumed unwritten (snapshot-checked, not modelled). "
+             "Callers that mutate a list they obtained from a view are outside the property.",
+        design="§4 C14",
+    ),
+    "C19": dict(
+        text="Lean 4 proof over an executable model of client.py: the beacon id is even and in [0,2^31) or rejected, with the exact rejection set "
+             "(beacon_id_range, beacon_id_rejected_iff); keys are a function of the presented id; the sleep time lies in the jitter band in exact "
+             "arithmetic; metadata.info is at most 51 bytes and exactly the longest whole-character prefix, so metadata fits 1024/2048-bit RSA; for "
+             "every registration script and every task sequence (known and unknown command ids) the loop invokes exactly the registered handlers "
+             "(plus on_<name>, else the catch-alls) once each, in order, leaving task_map unchanged (dispatch_exact, induction with an explicit heap); "
+             "the pre-repair behaviours (list aliasing, unguarded enum lookup, character-level truncation) are proved to violate the statements.",
+        note="Mersenne Twister and sha256 are parameters; CPython's UTF-8 codec, int and dict semantics are hand-modelled and exercised by dedicated "
+             "streams. Float rounding of get_sleep_time is not modelled: the real expression is run on Fractions and the float path is only "
+             "band-checked with a 1e-9 tolerance. Handlers are abstract (callable/truthy/raises/responds); get_task, send_callback, time.sleep are stubbed "
+             "while the real _beacon_loop runs.",
+        design="§4 C19",
+    ),
 }
 
 REASON_PENDING = "not claimed yet: model/theorems/correspondence for this property are not built in this revision (see DESIGN.md §7 build order)"
